@@ -73,7 +73,7 @@ def run(prop, ctx, res):
     cdir = os.path.join(ST_DIR, prop)
     out = {"mutants": 0, "caught": 0, "refactors": 0, "silent": 0, "skipped": 0, "cases": [], "failed": []}
     if not os.path.isdir(cdir):
-        return out
+        os.makedirs(cdir, exist_ok=True)
     base = violations_of(res)
     try:
         with open(os.path.join(ST_DIR, "baselines.json")) as fh:
@@ -85,10 +85,20 @@ def run(prop, ctx, res):
     names = sorted(f[:-5] for f in os.listdir(cdir) if f.endswith(".json"))
     if seed:
         names = names[seed % len(names):] + names[:seed % len(names)] if names else names
+    cases = []
     for nm in names:
         with open(os.path.join(cdir, nm + ".json")) as fh:
-            meta = json.load(fh)
-        patch = os.path.join(cdir, nm + ".patch")
+            cases.append((nm, json.load(fh), os.path.join(cdir, nm + ".patch")))
+    # the vetted changes of independent sub-agents that target this property (/verif/seeded/<name>/)
+    sdir = os.path.join(VERIF, "seeded")
+    for nm in sorted(os.listdir(sdir)) if os.path.isdir(sdir) else []:
+        mp = os.path.join(sdir, nm, "meta.json")
+        if os.path.isfile(mp):
+            with open(mp) as fh:
+                sm = json.load(fh)
+            if sm.get("property") == prop and os.path.isfile(os.path.join(sdir, nm, "patch.diff")):
+                cases.append(("seeded/" + nm, {"expect": "violation", "what": sm.get("needs_to_manifest", "")}, os.path.join(sdir, nm, "patch.diff")))
+    for nm, meta, patch in cases:
         st, val = run_case(prop, ctx.root, patch)
         case = {"name": nm, "expect": meta["expect"], "status": st}
         if st != "ran":
